@@ -12,8 +12,8 @@ import (
 
 func init() {
 	register(&core.Property{
-		ID:    "C18",
-		Title: "External authentication fails closed",
+		ID:          "C18",
+		Title:       "External authentication fails closed",
 		Explanation: "Typestate of hatypes.AuthExternal decided by a forward dataflow over the CFG of its only two writers (setAuthExternal, the per-path body of buildBackendOAuth): on every path from the point where authentication is declared to every exit (return, next iteration) the object is either `AlwaysDeny=true`, or `AlwaysDeny=false` together with a non-empty AuthBackendName that derives from a successful AcquireAuthBackendName / a found backend. Plus: nobody else writes these fields; a declaration always reaches the configuration call (per path, backend and frontend placement); oauth runs after auth-url and leaves its state alone; the `used` set that protects auth proxies from being recycled covers every holder of an AuthExternal; the template renders the deny / intercept pair with the path's own condition.",
 		NotDecided: []string{
 			"that HAProxy evaluates the rendered rule for exactly that path (rendered text is not interpreted)",
@@ -295,7 +295,7 @@ func c18Declared(c *core.Ctx) {
 		t := core.ExtractTable(fn)
 		m := matchers{
 			"place": has(`"auth-external-placement"`, `== "`+x.place+`")`, "ToLower("),
-			"url":    has(`"auth-url").Value != "")`),
+			"url":   has(`"auth-url").Value != "")`),
 		}
 		// atoms of the range loop are extra: bind only place/url, others must be loop atoms
 		b, err := t.Bind(m)
@@ -362,7 +362,10 @@ func c18Declared(c *core.Ctx) {
 	if fn := c.Fn("converters/ingress/annotations", "updater.UpdateBackendConfig"); fn != nil {
 		ext := c.Env.Func("converters/ingress/annotations", "updater.buildBackendAuthExternal")
 		oa := c.Env.Func("converters/ingress/annotations", "updater.buildBackendOAuth")
-		isExt := func(in ssa.Instruction) bool { call, ok := in.(*ssa.Call); return ok && call.Call.StaticCallee() == ext }
+		isExt := func(in ssa.Instruction) bool {
+			call, ok := in.(*ssa.Call)
+			return ok && call.Call.StaticCallee() == ext
+		}
 		isOA := func(in ssa.Instruction) bool { call, ok := in.(*ssa.Call); return ok && call.Call.StaticCallee() == oa }
 		c.Check(core.MustPrecede(fn, isExt, core.IsReturn) == nil, "UpdateBackendConfig calls buildBackendAuthExternal", c.Pos(fn.Pos()), "on all paths", "not called on every path")
 		c.Check(core.MustPrecede(fn, isOA, core.IsReturn) == nil, "UpdateBackendConfig calls buildBackendOAuth", c.Pos(fn.Pos()), "on all paths", "not called on every path")
@@ -370,7 +373,10 @@ func c18Declared(c *core.Ctx) {
 	}
 	if fn := c.Fn("converters/ingress/annotations", "updater.UpdateHostConfig"); fn != nil {
 		ext := c.Env.Func("converters/ingress/annotations", "updater.buildHostAuthExternal")
-		isExt := func(in ssa.Instruction) bool { call, ok := in.(*ssa.Call); return ok && call.Call.StaticCallee() == ext }
+		isExt := func(in ssa.Instruction) bool {
+			call, ok := in.(*ssa.Call)
+			return ok && call.Call.StaticCallee() == ext
+		}
 		c.Check(core.MustPrecede(fn, isExt, core.IsReturn) == nil, "UpdateHostConfig calls buildHostAuthExternal", c.Pos(fn.Pos()), "on all paths", "not called on every path")
 	}
 }
